@@ -148,15 +148,16 @@ static char g_crash_path[512];
 
 extern "C" void __sanitizer_set_death_callback(void (*)(void)) __attribute__((weak));
 
-static void crash_dump() {
-    if (!g_crash_path[0]) return;
-    int fd = open(g_crash_path, O_WRONLY | O_CREAT | O_TRUNC, 0644);
-    if (fd >= 0) {
-        ssize_t w = write(fd, g_current_case.data(), g_current_case.size());
-        (void)w;
-        close(fd);
-    }
+// The case about to be executed is written to <fail>.crash *before* it runs (two cheap system
+// calls), so that it survives even when the library then corrupts the heap before crashing.
+static int g_crash_fd = -1;
+static void crash_note_case() {
+    if (g_crash_fd < 0) return;
+    ssize_t w = pwrite(g_crash_fd, g_current_case.data(), g_current_case.size(), 0);
+    (void)w;
+    if (ftruncate(g_crash_fd, (off_t)g_current_case.size()) != 0) {}
 }
+static void crash_dump() {}
 static void crash_handler(int sig) {
     crash_dump();
     const char m[] = "\nSKV-CRASH: signal while executing a case (case saved)\n";
@@ -198,6 +199,7 @@ static inline int skv_main(int argc, char **argv, Harness &h) {
     g_fail_path = kv.count("fail") ? kv["fail"] : "";
     if (!g_fail_path.empty()) {
         snprintf(g_crash_path, sizeof g_crash_path, "%s.crash", g_fail_path.c_str());
+        g_crash_fd = open(g_crash_path, O_WRONLY | O_CREAT | O_TRUNC, 0644);
         signal(SIGSEGV, crash_handler); signal(SIGBUS, crash_handler); signal(SIGILL, crash_handler);
         signal(SIGFPE, crash_handler); signal(SIGABRT, crash_handler);
         if (__sanitizer_set_death_callback) __sanitizer_set_death_callback(sanitizer_death);
@@ -207,6 +209,7 @@ static inline int skv_main(int argc, char **argv, Harness &h) {
     bool ok = rc::check([&]() {
         Program p = *gen;
         g_current_case = ser(p);
+        crash_note_case();
         std::string r = h.run(p, st);
         if (!r.empty()) {
             st.shrinking = true;
@@ -215,6 +218,7 @@ static inline int skv_main(int argc, char **argv, Harness &h) {
         }
     });
     if (!out.empty()) { st.dump(out); st.dump_hashes(out + ".hashes"); }
+    if (g_crash_fd >= 0) { close(g_crash_fd); g_crash_fd = -1; unlink(g_crash_path); }
     if (!ok) {
         if (last_fail.empty()) { fprintf(stderr, "SKV-INFRA: rapidcheck reported failure without a failing case (gave up / generator error)\n"); return 2; }
         if (!g_fail_path.empty()) { write_file(g_fail_path, last_fail); write_file(g_fail_path + ".msg", last_msg + "\n"); }
